@@ -160,6 +160,12 @@ WL_SDL = (
     'type Query @tag(v: 1) @other { a(x: Int @tag(v: 3), i: In): E @tag(v: 2) @deprecated(reason: "x") @other b: Int @deprecated c: U d: I s: S }\n'
     'enum E @tag { X @tag(v: 4) @deprecated Y @other @deprecated(reason: "") Z @other }\n'
     'input In @tag { f: Int @tag(v: 5) }\nunion U @tag = Query\ninterface I @tag { d: I @other }\nscalar S @tag',
+    # (appended) directives on a definition AND on its extensions (several extend blocks, the schema definition extended as well)
+    'directive @tag(v: Int) on FIELD_DEFINITION | OBJECT | SCHEMA | ENUM | UNION | INTERFACE | SCALAR | INPUT_OBJECT | ENUM_VALUE\ndirective @other on FIELD_DEFINITION | OBJECT | SCHEMA | ENUM | UNION | INTERFACE | SCALAR | INPUT_OBJECT\n'
+    'schema @tag(v: 0) { query: Query }\nextend schema @other\n'
+    'type Query @tag(v: 1) { a: E @tag(v: 2) c: U d: I s: S i(x: In): Int }\nextend type Query @other { z: Int @other }\nextend type Query @tag(v: 9)\n'
+    'enum E @tag { X }\nextend enum E @other { Y @tag(v: 3) }\ninput In @tag { f: Int }\nextend input In @other { g: Int }\n'
+    'union U @tag = Query\nextend union U @other\ninterface I @tag { d: I }\nextend interface I @other { e: Int }\nscalar S @tag\nextend scalar S @other',
 )
 
 
@@ -389,7 +395,7 @@ CONDITIONS = [
     ),
     Cond(
         name="directive_whitelist", fn=_directive_whitelist, quick=100, thorough=100,
-        bound="the white-list form of include_custom_schema_directives: 2 SDL-built schemas carrying custom directives on every kind of element next to @deprecated x every subset (both orders) of "
+        bound="the white-list form of include_custom_schema_directives: 3 SDL-built schemas carrying custom directives on every kind of element next to @deprecated (one with directives on definitions AND on their extensions) x every subset (both orders) of "
               "{two custom names, deprecated, skip, include, an unknown name} x descriptions on / off: the text equals the True / False form when the list names all / none of the custom directives, "
               "the rebuilt schema prints the same text under the same option and is structurally identical, repeated calls agree",
         symbolic={"sd,wl,rev,desc": "choice"}, witness={"sd": 0, "wl": 5, "rev": False, "desc": True},
